@@ -8,6 +8,7 @@ import (
 	"iter"
 	"strconv"
 	"strings"
+	"sync/atomic"
 	"time"
 
 	eventbus "github.com/jilio/ebu"
@@ -39,6 +40,9 @@ var _ eventbus.SubscriptionStore = (*SQLiteStore)(nil)
 // dbOpener is used to open database connections, injectable for testing
 var dbOpener = sql.Open
 
+// memoryDBSeq numbers the in-memory databases of this process
+var memoryDBSeq atomic.Int64
+
 // New creates a new SQLiteStore with the given path and options.
 //
 // Note: When WithAutoMigrate is enabled (the default), migrations run with
@@ -64,7 +68,9 @@ func New(path string, opts ...Option) (*SQLiteStore, error) {
 	var dsn string
 	if cfg.path == ":memory:" {
 		// Use shared cache mode for in-memory databases to allow multiple connections
-		dsn = "file::memory:?mode=memory&cache=shared"
+		// of this store's pool to see one database. Each store gets its own name:
+		// with the bare "file::memory:" every store of the process shared one database.
+		dsn = fmt.Sprintf("file:ebu-memdb-%d?mode=memory&cache=shared", memoryDBSeq.Add(1))
 	} else {
 		dsn = fmt.Sprintf("file:%s?_busy_timeout=%d", cfg.path, cfg.busyTimeout.Milliseconds())
 	}
